@@ -454,6 +454,7 @@ func (e *Engine) verifyFunction(fn *ssa.Function, c *Contract) (err error) {
 	short := pkg[strings.LastIndex(pkg, "/")+1:]
 	e.curFunc = short + "." + rel
 	e.curProps = c.Props
+	e.curContract = c
 	defer func() {
 		if r := recover(); r != nil {
 			if ee, ok := r.(engineError); ok {
